@@ -159,6 +159,41 @@ TreeOK(tbl, root, none, order, fan) ==
   /\ EffectiveOK(tbl, root, order)
 
 ---------------------------------------------------------------------------
+(* Reading a tree that somebody else wrote.  A conforming tree (7.7.3.2,   *)
+(* 7.7.3.3): finite, /Type Pages or Page, /Count = leaves below, /Parent   *)
+(* = the listing node, root without /Parent.  Nothing is said about        *)
+(* balance: any fan-out, /Pages nodes with one kid or with none.           *)
+ConformingTree(tbl, root, none) ==
+  /\ TreeFinite(tbl, root, MaxTreeDepth)
+  /\ TypesOK(tbl, root)
+  /\ CountsOK(tbl, root)
+  /\ ParentsOK(tbl, root, none)
+
+\* what a reader must report: the leaves in document order, each with its
+\* effective attributes (7.7.3.4: nearest value on the path from the page up)
+RefPages(tbl, root) ==
+  LET ls == Leaves(tbl, root)
+      eff == EffLeaves(tbl, root, NoAttrs)
+  IN [i \in 1..Len(ls) |-> [id |-> tbl[ls[i]].id, a |-> eff[i]]]
+
+\* /Rotate as a typed reader reports it: a multiple of 90 modulo 360
+RotCanon(v) ==
+  CASE v \in {"-", "0", "360", "-360", "720"} -> "0"
+    [] v \in {"90", "450", "-270"} -> "90"
+    [] v \in {"180", "-180", "540"} -> "180"
+    [] v \in {"270", "-90", "630"} -> "270"
+    [] OTHER -> v
+\* decoded pages (page.Decode of what the reader returned): boxes and
+\* resources as given, rotation canonical
+DecodedSame(given, dec) ==
+  /\ dec.m = given.m /\ dec.c = given.c
+  /\ RotCanon(dec.r) = RotCanon(given.r)
+  /\ SameAttr("s", given.s, dec.s)
+DecodedOK(dec, order) ==
+  /\ Len(dec) = Len(order)
+  /\ \A i \in 1..Len(dec) : dec[i].id = order[i].id /\ DecodedSame(order[i].a, dec[i].a)
+
+---------------------------------------------------------------------------
 (* Answers of a page-tree reader, judged against the same expected list.   *)
 (* seen: sequence of [id, a] as yielded by an iterator;                    *)
 (* got:  sequence of [i, id, a] answers of GetPage(i) (0-based i).         *)
